@@ -71,17 +71,24 @@ def confirm(sc: Scratch, prep: dict, r: HarnessResult, log_dir: Path) -> dict:
         recs = [l for l in tr if l.get("kind") == "c18"]
         if not recs:
             continue
-        script = {k: recs[0][k] for k in ("values", "explicit_profile", "env_profile")}
-        script["_origin"] = {"harness": r.spec.name, "failed": role}
-        h = hashlib.sha256(json.dumps(script, sort_keys=True).encode()).hexdigest()[:12]
-        rep = rep_dir / f"{r.spec.name}-{h}.json"
-        rep.write_text(json.dumps(script, indent=1) + "\n")
-        first = first or rep
-        ok, detail = session.run_native_script(exe.parent / "config_native", rep)
-        if ok is True:
-            return {"reproduced": True, "replay": str(rep), "role": f"{r.spec.name}|{script['explicit_profile']}|{script['env_profile']}", "detail": detail}
-        if rep != first:
-            rep.unlink(missing_ok=True)
+        base = {k: recs[0][k] for k in ("values", "explicit_profile", "env_profile")}
+        # the counterexample as is; then with PX_PROFILE also present in the environment next to an
+        # explicit profile (a parameter handed to the environment provider only shows then)
+        variants = [base]
+        if base["explicit_profile"] and not base["env_profile"]:
+            variants.append({**base, "env_profile": base["explicit_profile"]})
+        for script in variants:
+            script = dict(script)
+            script["_origin"] = {"harness": r.spec.name, "failed": role}
+            h = hashlib.sha256(json.dumps(script, sort_keys=True).encode()).hexdigest()[:12]
+            rep = rep_dir / f"{r.spec.name}-{h}.json"
+            rep.write_text(json.dumps(script, indent=1) + "\n")
+            first = first or rep
+            ok, detail = session.run_native_script(exe.parent / "config_native", rep)
+            if ok is True:
+                return {"reproduced": True, "replay": str(rep), "role": f"{r.spec.name}|{script['explicit_profile']}|{script['env_profile']}", "detail": detail}
+            if rep != first:
+                rep.unlink(missing_ok=True)
     if first is not None:
         return {"reproduced": False, "replay": str(first), "role": role,
                 "detail": f"{len(finds)} concrete failing inputs of the shim build do not misbehave on the real loader (a parameter handed to figment changed without observable effect?)"}
